@@ -227,7 +227,8 @@ def _family(tier):
     from props import accel_family, C16
     out += [(n_, "metrics", y_) for n_, y_ in accel_family.specs(tier)]
     fam16 = C16.family(tier)
-    out += [("display %s" % (meta,), "plain", y_) for _b, y_, meta in (fam16 if tier == "thorough" else fam16[::2])]
+    out += [("display %s" % (meta,), "plain", y_) for i_, (_b, y_, meta) in enumerate(fam16)
+            if tier == "thorough" or i_ % 2 == 0 or (meta["slip"] and len(meta["space"]) == len(meta["loop_order"]))]
     out += [(n_, "plain", y_) for n_, y_ in cascade.EXTRA_CASCADES]
     out.append(("cascade whose second Einsum alone is displayed with slip", "plain", SLIP_SECOND))
     return out
